@@ -79,6 +79,7 @@ pub mod sched {
         trace: Vec<String>,
         tracing: bool,
         timeouts: u64,
+        ids: u64,
     }
 
     lazy_static! {
@@ -143,6 +144,17 @@ pub mod sched {
 
     pub fn timeouts() -> u64 {
         STATE.lock().unwrap().timeouts
+    }
+
+    pub fn tracing() -> bool {
+        STATE.lock().unwrap().tracing
+    }
+
+    /// a fresh id (matcher runs)
+    pub fn next_id() -> u64 {
+        let mut s = STATE.lock().unwrap();
+        s.ids += 1;
+        s.ids
     }
 
     pub fn take_trace() -> Vec<String> {
